@@ -1427,7 +1427,13 @@ class IRGenerator:
                             *loc)
                     if isinstance(env[type_name], Environment):
                         # Handle reference to field in imported namespace.
-                        namespace_name, type_name, field_name = val.split('.', 2)
+                        parts = val.split('.', 2)
+                        if len(parts) != 3 or parts[1] not in env[parts[0]]:
+                            raise InvalidSpec(
+                                'Bad doc reference to field %s of imported '
+                                'namespace %s.' % (quote(field_name), quote(type_name)),
+                                *loc)
+                        namespace_name, type_name, field_name = parts
                         data_type_to_check = env[namespace_name][type_name]
                     elif isinstance(env[type_name], Alias):
                         data_type_to_check = env[type_name].data_type
